@@ -8,6 +8,7 @@ import (
 	"fmt"
 	"io"
 	"runtime/debug"
+	"strings"
 	"testing"
 	"time"
 	"unicode/utf8"
@@ -39,6 +40,12 @@ var filters = []struct {
 // pipeline runs everything the property names on one input and returns the
 // first failure.
 func pipeline(in []byte, sched []int, eofData bool) (stage string, err error) {
+	return pipelineMode(in, sched, eofData, false)
+}
+
+// pipelineMode: light = a diagonal of the renderer configurations only (used
+// by the enumerated run-length check, whose cases differ in one number).
+func pipelineMode(in []byte, sched []int, eofData, light bool) (stage string, err error) {
 	defer func() {
 		if p := recover(); p != nil {
 			err = fmt.Errorf("panic in %s: %v\n%s", stage, p, debug.Stack())
@@ -78,7 +85,7 @@ func pipeline(in []byte, sched []int, eofData bool) (stage string, err error) {
 		for _, sb := range []cm.SoftBreakBehavior{cm.SoftBreakPreserve, cm.SoftBreakSpace, cm.SoftBreakHarden} {
 			for _, ign := range []bool{false, true} {
 				for fi, fl := range filters {
-					if len(in) > 4096 && (int(sb)+fi)%4 != 0 {
+					if (light || len(in) > 4096) && (int(sb)+fi)%4 != 0 {
 						continue // long inputs: a diagonal of the configuration cube keeps the case cheap
 					}
 					stage = fmt.Sprintf("Render(soft=%v,ignoreRaw=%v,filter=%s)", sb, ign, fl.name)
@@ -120,6 +127,41 @@ func pipeline(in []byte, sched []int, eofData bool) (stage string, err error) {
 				return stage, fmt.Errorf("Walk made %d Pre and %d Post calls", pre, post)
 			}
 			cm.Walk(b.AsNode(), &cm.WalkOptions{})
+		}
+		// a traversal that the caller cuts short (Post or Pre returning false
+		// at some ordinal) must leave nothing behind: the calls that follow it
+		// on the same goroutine behave as before
+		stage = "Walk aborted, then Render/Format/Walk again"
+		for _, b := range set {
+			for _, k := range []int{0, 1, 3, 9} {
+				post := 0
+				cm.Walk(b.AsNode(), &cm.WalkOptions{Post: func(c *cm.Cursor) bool { post++; return post <= k }})
+				pre := 0
+				cm.Walk(b.AsNode(), &cm.WalkOptions{Pre: func(c *cm.Cursor) bool { pre++; return pre <= k+1 }})
+				if post <= k {
+					break // the tree has fewer nodes than the abort point
+				}
+			}
+		}
+		var fb2 bytes.Buffer
+		if e := format.Format(&fb2, set); e != nil {
+			return stage, fmt.Errorf("Format returned %v on a bytes.Buffer", e)
+		}
+		if !bytes.Equal(fb.Bytes(), fb2.Bytes()) {
+			return stage, fmt.Errorf("Format after aborted walks wrote %q, before them %q", fb2.Bytes(), fb.Bytes())
+		}
+		if e := cm.RenderHTML(&plainWriter{}, set, rm); e != nil {
+			return stage, fmt.Errorf("RenderHTML returned %v", e)
+		}
+		for _, b := range set {
+			pre, post := 0, 0
+			cm.Walk(b.AsNode(), &cm.WalkOptions{
+				Pre:  func(c *cm.Cursor) bool { pre++; return true },
+				Post: func(c *cm.Cursor) bool { post++; return true },
+			})
+			if pre != post || pre == 0 {
+				return stage, fmt.Errorf("Walk after aborted walks made %d Pre and %d Post calls", pre, post)
+			}
 		}
 		stage = "accessors"
 		for _, b := range set {
@@ -179,7 +221,7 @@ func prop(c harness.Case) harness.Result {
 	}
 	ch := make(chan out, 1)
 	go func() {
-		st, err := pipeline(c.In, c.L["sched"], c.I["eofdata"] == 1)
+		st, err := pipelineMode(c.In, c.L["sched"], c.I["eofdata"] == 1, c.I["light"] == 1)
 		ch <- out{st, err}
 	}()
 	var res harness.Result
@@ -262,18 +304,103 @@ func genNest(t *rapid.T) harness.Case {
 	return harness.Case{In: in}
 }
 
-const rule = "every stage (Parse; NextBlock+Extract+Rewrite under a G5 schedule; Render under 3 soft-break x IgnoreRaw x FilterTag{nil,GFM,always,never}; AppendBlock; RenderHTML; Format on Buffer and plain Writer; Walk; every accessor) under recover and a watchdog; non-trivial = input has invalid UTF-8, NUL, a lone CR, an unterminated construct at EOF (open bracket, odd backtick count, open comment, odd fence count) or parses to depth >= 16"
+// ---- enumerated run lengths: every length 1..N of a run of one unit, in a set
+// of templates, so that any table, counter or buffer sized or indexed by a run
+// length (backtick strings, delimiter runs, fences, indentation, digits,
+// brackets, NULs) is crossed at every power of two on the way.
+var runUnits = []string{"`", "*", "_", "~", "#", "-", "=", ">", "[", "]", "(", ")", "<", "&", ";", "9", " ", "\t", "\\", "!", "\x00", "\r", "\n", "+", ":", "\"", "'", "a", "é", "\xff", "> ", "- ", "![", "](", "<!", "&#", "**_"}
+
+var runTemplates = []func(r string) string{
+	func(r string) string { return r },
+	func(r string) string { return r + "a" },
+	func(r string) string { return "a" + r + "a" + r },
+	func(r string) string { return "a " + r + " b" },
+	func(r string) string { return "> " + r + "a\n> b" },
+	func(r string) string { return "- " + r + "\n  a" },
+	func(r string) string { return "# " + r + " #" },
+	func(r string) string { return "[" + r + "](" + r + ")" },
+	func(r string) string { return "```" + r + "\n" + r },
+	func(r string) string { return "<a " + r + ">" },
+	func(r string) string { return r + "\n" + r + "\n" },
+	func(r string) string { return "[a]: " + r + "\n\n[a]" },
+	func(r string) string { return "[" + r + "]: /u\n\n[" + r + "]" },
+	func(r string) string { return "`" + r + "`" },
+}
+
+func runLengths(quick bool) []int {
+	var ls []int
+	max := 1100
+	if quick {
+		max = 140
+	}
+	for i := 1; i <= max; i++ {
+		ls = append(ls, i)
+	}
+	if quick {
+		ls = append(ls, 255, 256, 257, 511, 512, 513, 999, 1000, 1023, 1024, 1025)
+	}
+	return ls
+}
+
+func runLengthCheck(t *testing.T, p harness.Plan) {
+	const name = "run_lengths"
+	cfg := harness.Cfg()
+	shards := 1
+	if cfg.Tier == "thorough" {
+		shards = 16
+	}
+	ls := runLengths(cfg.Tier != "thorough")
+	idx, n := 0, 0
+	for ui, u := range runUnits {
+		for ti, tf := range runTemplates {
+			for _, l := range ls {
+				idx++
+				if idx%shards != cfg.Shard%shards {
+					continue
+				}
+				if l*len(u) > 3000 {
+					continue
+				}
+				c := harness.Case{In: []byte(tf(strings.Repeat(u, l)))}
+				c.SetI("light", 1)
+				res := safePropLocal(c)
+				n++
+				harness.Count(name, &c, true, fmt.Sprintf("unit_%d", ui), fmt.Sprintf("template_%d", ti))
+				if res.Err != nil {
+					if harness.Fail(t, p, name, c, res.Err) {
+						return
+					}
+				}
+			}
+		}
+	}
+	harness.SetExhaustive(name, fmt.Sprintf("%d units x %d templates x run lengths 1..%d (quick: 1..140 and around 256, 512, 999, 1024), runs longer than 3000 bytes skipped", len(runUnits), len(runTemplates), ls[len(ls)-1]))
+}
+
+func safePropLocal(c harness.Case) (r harness.Result) {
+	defer func() {
+		if p := recover(); p != nil {
+			r.Err = fmt.Errorf("panic: %v\n%s", p, debug.Stack())
+		}
+	}()
+	return prop(c)
+}
+
+const rule = "every stage (Parse; NextBlock+Extract+Rewrite under a G5 schedule; Render under 3 soft-break x IgnoreRaw x FilterTag{nil,GFM,always,never}; AppendBlock; RenderHTML; Format on Buffer and plain Writer; Walk; walks cut short by Pre/Post returning false followed by Format, RenderHTML and Walk again; every accessor) under recover and a watchdog; non-trivial = input has invalid UTF-8, NUL, a lone CR, an unterminated construct at EOF (open bracket, odd backtick count, open comment, odd fence count) or parses to depth >= 16"
 
 func plan() harness.Plan {
 		return harness.Plan{Prop: "C04", Checks: []harness.Check{
 		{Name: "pipeline", Quick: 40000, Thorough: 600000, Gen: genDoc, Prop: prop, Rule: "G1/G2/G3 inputs: " + rule},
 		{Name: "long", Quick: 60, Thorough: 600, Gen: genLong, Prop: prop, Rule: "G1 long mode 2-16 KB: " + rule},
+		{Name: "run_lengths", Prop: prop, Rule: "enumerated: a run of one unit (37 units: every markdown-significant character, white space, NUL, invalid UTF-8, short openers) at every length in 14 templates (bare, in text, quoted, in a list item, heading, link text and destination, fence info and content, tag attribute, two lines, definition destination, label, code span); a diagonal of the renderer configurations"},
 		{Name: "nesting", Quick: 60, Thorough: 600, Gen: genNest, Prop: prop, Rule: "200-12000 repetitions of one opener (<= 12 KB; the library is quadratic to cubic in nesting depth, so sizes are bounded to keep the watchdog two orders of magnitude above the slowest case): " + rule},
 	}}
 }
 
 func TestProperty(t *testing.T) {
-	harness.Run(t, plan())
+	p := plan()
+	p.After = func(t *testing.T) { runLengthCheck(t, p) }
+	harness.Run(t, p)
 }
 
 // FuzzProperty is the native coverage-guided fuzz entry (thorough tier).
